@@ -223,14 +223,26 @@ func vfCorrupt(stream []byte, st vfStep) []byte {
 		return out
 	}
 	pos := st.Pos * len(out) / 1000
+	if st.Op == "decode-flip-at" || st.Op == "decode-cut-at" {
+		pos = st.Pos // (an exact byte offset)
+	}
 	if pos >= len(out) {
 		pos = len(out) - 1
 	}
 	switch st.Op {
+	case "decode-flip-at":
+		out[pos] ^= 1 << (uint(st.Bit) % 8)
+	case "decode-cut-at":
+		out = out[:pos]
 	case "decode-corrupt":
 		out[pos] ^= 1 << (uint(st.Bit) % 8)
 	case "decode-truncated":
 		out = out[:pos]
+	case "decode-trailing":
+		// the complete stream followed by stray bytes (a peer that kept writing)
+		for i := 0; i <= st.Pos%16; i++ {
+			out = append(out, byte(st.Bit*37+i))
+		}
 	}
 	return out
 }
@@ -273,7 +285,7 @@ func vfC20Check(c vfC20Case) error {
 				return verifkit.Violf("valid-decode-mismatch", "%s: decoded %d bytes, want %d", where, len(got), len(data))
 			}
 			prevFailed = false
-		case "decode-corrupt", "decode-truncated", "decode-nothing":
+		case "decode-corrupt", "decode-truncated", "decode-nothing", "decode-trailing", "decode-flip-at", "decode-cut-at":
 			var src []byte
 			if st.Op != "decode-nothing" {
 				src = vfCorrupt(vfIndepEncode(enc, data), st)
@@ -302,7 +314,7 @@ func vfC20Classify(c vfC20Case) ([]string, bool) {
 			}
 			failedBefore = false
 			uses++
-		case "decode-corrupt", "decode-truncated", "decode-nothing":
+		case "decode-corrupt", "decode-truncated", "decode-nothing", "decode-trailing", "decode-flip-at", "decode-cut-at":
 			failedBefore = true
 			uses++
 		case "compress":
@@ -320,7 +332,7 @@ func vfC20Classify(c vfC20Case) ([]string, bool) {
 	return cl, nt
 }
 
-var vfOps = []string{"compress", "roundtrip", "decode", "decode-corrupt", "decode-truncated", "decode-nothing"}
+var vfOps = []string{"compress", "roundtrip", "decode", "decode-corrupt", "decode-truncated", "decode-nothing", "decode-trailing"}
 
 func vfGenData(t *rapid.T) vfData {
 	switch rapid.IntRange(0, 9).Draw(t, "datakind") {
@@ -373,7 +385,7 @@ func TestVerifC20Enum(t *testing.T) {
 	alphabet := []vfStep{
 		{Op: "decode", Data: a}, {Op: "decode", Data: b}, {Op: "decode", Data: big},
 		{Op: "decode-corrupt", Data: a, Pos: 500, Bit: 3}, {Op: "decode-truncated", Data: a, Pos: 500}, {Op: "decode-nothing"},
-		{Op: "decode-corrupt", Data: a, Pos: 0, Bit: 0},
+		{Op: "decode-corrupt", Data: a, Pos: 0, Bit: 0}, {Op: "decode-trailing", Data: a, Pos: 3, Bit: 1},
 		{Op: "roundtrip", Data: a}, {Op: "roundtrip", Data: b}, {Op: "compress", Data: big, Chunked: true},
 	}
 	shard, shards := verifkit.Shard()
@@ -591,4 +603,53 @@ func TestVerifC20Concurrent(t *testing.T) {
 			return []string{vfEncodings[c.Enc].String(), fmt.Sprintf("recycled-instances:%d", recycled)}, recycled >= 1
 		},
 	})
+}
+
+// TestVerifC20Flips: for every encoding, every single-bit flip and every cut of the stream of one short message, and
+// the stream followed by 1-4 stray bytes, is decoded on a pooled instance - and right after it, on the same instance,
+// a valid stream, which must decode to its message (the quantifier's "any single-bit flip or cut", exhaustively).
+func TestVerifC20Flips(t *testing.T) {
+	en := verifkit.NewEnum(t, "C20Flips")
+	var rc vfC20Case
+	if en.ReplayCase(&rc) {
+		if err := verifkit.SafeCall(func() error { return vfC20Check(rc) }); err != nil {
+			en.Fail(rc, err)
+		}
+		en.Done(true)
+		return
+	}
+	msg := vfData{Kind: "text", Size: 120}
+	other := vfData{Kind: "text", Size: 300}
+	shard, shards := verifkit.Shard()
+	idx := 0
+	for enc := range vfEncodings {
+		n := len(vfIndepEncode(vfEncodings[enc], msg.bytes()))
+		var bad []vfStep
+		for pos := 0; pos < n; pos++ {
+			for bit := 0; bit < 8; bit++ {
+				bad = append(bad, vfStep{Op: "decode-flip-at", Data: msg, Pos: pos, Bit: bit})
+			}
+			bad = append(bad, vfStep{Op: "decode-cut-at", Data: msg, Pos: pos})
+		}
+		for k := 0; k < 4; k++ {
+			bad = append(bad, vfStep{Op: "decode-trailing", Data: msg, Pos: k, Bit: k})
+		}
+		for _, b := range bad {
+			idx++
+			if idx%shards != shard {
+				continue
+			}
+			c := vfC20Case{Enc: enc, Steps: []vfStep{b, {Op: "decode", Data: other}, {Op: "decode", Data: msg}}}
+			err := verifkit.SafeCall(func() error { return vfC20Check(c) })
+			en.Rec.ObserveHash(uint64(idx), "enc:"+vfEncodings[enc].String()+" "+b.Op, true)
+			if idx%499 == 7 {
+				en.Rec.AddSample(c)
+			}
+			if err != nil && en.Fail(c, err) {
+				en.Done(false)
+				return
+			}
+		}
+	}
+	en.Done(true)
 }
